@@ -93,7 +93,8 @@ Qed.
 (** * The facts the property needs *)
 Lemma cfg_ok_inv c : cfg_ok c = true ->
   none_is_true c = true /\ list_op c = And /\ where_requalifies c = true /\ where_strips_alias c = true
-  /\ set_requalifies c = true /\ target_is_phys c = true /\ stmt_has_where c = true
+  /\ set_requalifies c = true /\ target_is_phys_update c = true /\ target_is_phys_delete c = true
+  /\ update_has_where c = true /\ delete_has_where c = true
   /\ ensure_cte_update c = true /\ ensure_cte_delete c = true
   /\ build_session_calls c = 0%nat /\ execute_session_calls c = 1%nat.
 Proof.
@@ -327,14 +328,14 @@ Theorem compile_exact c st cs k :
     /\ forallb (resolvable (phys st) cs) (stmt_exprs s) = true
     /\ forall rows, exec (phys st) cs rows s = inr (spec_rows cs k rows, spec_count cs k rows).
 Proof.
-  intros Hc Hk. destruct (cfg_ok_inv c Hc) as (_ & _ & _ & _ & _ & Htp & Hhw & Heu & Hed & _).
+  intros Hc Hk. destruct (cfg_ok_inv c Hc) as (_ & _ & _ & _ & _ & Htpu & Htpd & Hhwu & Hhwd & Heu & Hed & _).
   destruct k as [set w|w]; simpl in Hk.
   - apply andb_true_iff in Hk. destruct Hk as [Hw Hs].
     destruct (compile_where_sound c st cs w Hc Hw) as (p & Ep & Hpa & Hpr & Hph).
     destruct (compile_set_from_sound c st cs set Hc Hs []) as (us & Eus & [Hg1 Hg2] & Hassoc).
     { split; reflexivity. }
     exists (SUpdate (phys st) us (Some p)). unfold compile. rewrite Heu. simpl.
-    rewrite Ep. unfold compile_set. rewrite Eus. unfold target, wrap_where. rewrite Htp, Hhw.
+    rewrite Ep. unfold compile_set. rewrite Eus. unfold target, wrap_where. rewrite Htpu, Hhwu.
     split; [reflexivity|].
     assert (Hres : forallb (resolvable (phys st) cs) (map snd us ++ [p]) = true).
     { rewrite forallb_app. simpl. rewrite Hpr, andb_true_r. rewrite forallb_map'.
@@ -356,7 +357,7 @@ Proof.
     + unfold spec_count. simpl. f_equal. apply filter_ext'. intro r. simpl. apply Hph.
   - destruct (compile_where_sound c st cs w Hc Hk) as (p & Ep & Hpa & Hpr & Hph).
     exists (SDelete (phys st) (Some p)). unfold compile. rewrite Hed. simpl.
-    rewrite Ep. unfold target, wrap_where. rewrite Htp, Hhw.
+    rewrite Ep. unfold target, wrap_where. rewrite Htpd, Hhwd.
     split; [reflexivity|]. split; [simpl; rewrite Hpr; reflexivity|].
     intro rows. unfold exec, stmt_syntax_ok, stmt_binds. cbn [stmt_exprs stmt_keys stmt_target stmt_where olist].
     rewrite String.eqb_refl. simpl. rewrite Hpa, Hpr. simpl. f_equal. f_equal.
@@ -499,7 +500,7 @@ Theorem no_cte_qualifier_left c st k s :
   cfg_ok c = true -> cte st <> phys st -> compile c st k = inr s ->
   forall e, In e (stmt_exprs s) -> no_cte_in st e.
 Proof.
-  intros Hc Hne E. destruct (cfg_ok_inv c Hc) as (_ & _ & Hrq & Hsa & _ & _ & Hhw & _).
+  intros Hc Hne E. destruct (cfg_ok_inv c Hc) as (_ & _ & Hrq & Hsa & _ & _ & _ & Hhwu & Hhwd & _).
   assert (Hwhere : forall w p, compile_where c st w = inr p -> no_cte_in st p).
   { assert (Hgen : forall l p, compile_items c st l = inr p -> no_cte_in st p).
     { intros l p El. unfold compile_items in El.
@@ -519,11 +520,11 @@ Proof.
     destruct Hin as [Hin|Hin].
     + apply in_map_iff in Hin. destruct Hin as [kv [<- Hkv]].
       apply (compile_set_no_cte c st set Hc Hne [] us); [intros ? []|exact Es|exact Hkv].
-    + unfold wrap_where in Hin. rewrite Hhw in Hin. destruct Hin as [<-|[]]. apply (Hwhere w p Ew).
+    + unfold wrap_where in Hin. rewrite Hhwu in Hin. destruct Hin as [<-|[]]. apply (Hwhere w p Ew).
   - destruct (negb (ensure_cte_delete c)); [discriminate|].
     destruct (compile_where c st w) as [?|p] eqn:Ew; [discriminate|].
     inversion E; subst. clear E. intros e Hin. simpl in Hin.
-    unfold wrap_where in Hin. rewrite Hhw in Hin. destruct Hin as [<-|[]]. apply (Hwhere w p Ew).
+    unfold wrap_where in Hin. rewrite Hhwd in Hin. destruct Hin as [<-|[]]. apply (Hwhere w p Ew).
 Qed.
 
 (** * Laziness and histories *)
@@ -531,7 +532,7 @@ Theorem lazy_until_execute c st name cs w k :
   cfg_ok c = true ->
   w_rows (step c st name cs w (ABuild k)) = w_rows w /\ w_sent (step c st name cs w (ABuild k)) = w_sent w.
 Proof.
-  intro Hc. destruct (cfg_ok_inv c Hc) as (_ & _ & _ & _ & _ & _ & _ & _ & _ & Hb & _).
+  intro Hc. destruct (cfg_ok_inv c Hc) as (_ & _ & _ & _ & _ & _ & _ & _ & _ & _ & _ & Hb & _).
   simpl. rewrite Hb. destruct (compile c st k); simpl; rewrite Nat.add_0_r; split; reflexivity.
 Qed.
 
@@ -546,7 +547,7 @@ Theorem history_exact c st cs :
   w_rows (run_hist c st (phys st) cs w h) = spec_hist cs calls (w_rows w) h
   /\ w_sent (run_hist c st (phys st) cs w h) = (w_sent w + execs_in (List.length calls) h)%nat.
 Proof.
-  intro Hc. destruct (cfg_ok_inv c Hc) as (_ & _ & _ & _ & _ & _ & _ & _ & _ & Hb & He).
+  intro Hc. destruct (cfg_ok_inv c Hc) as (_ & _ & _ & _ & _ & _ & _ & _ & _ & _ & _ & Hb & He).
   induction h as [|a h IH]; intros calls w Hh Hcalls Hbuilt.
   - simpl. rewrite Nat.add_0_r. split; reflexivity.
   - destruct a as [k|i]; simpl in Hh.
